@@ -352,7 +352,7 @@ func checkSenderWire(sc cfg, calls []call, perCall [][]rawFrame, rp replay12) (w
 			if f.Fin != (j == len(fs)-1) {
 				bad("wire-fin", fmt.Sprintf("frame %d of %d: FIN=%v", j, len(fs), f.Fin))
 			}
-			if len(f.Payload) > sc.FrameLimit {
+			if len(f.Payload) > sc.FrameLimit && c.T < 8 {
 				bad("wire-frame-over-limit", fmt.Sprintf("frame %d carries %d bytes, MaxWebsocketFramePayloadSize=%d", j, len(f.Payload), sc.FrameLimit))
 			}
 			if len(f.Payload) == 0 && len(fs) > 1 {
